@@ -448,9 +448,11 @@ def checkLts (args res : List String) : Except String (Findings × String) := do
     The result automaton was parsed back from the printed Timbuk text by the Python side (`R=`), or `out=E|N|C|T`. -/
 def checkCliOp (args res : List String) : Except String (Findings × String) := do
   let repr ← getE args[0]? "bad repr"
-  let op ← getE args[1]? "bad op"
+  let op0 ← getE args[1]? "bad op"
   let A ← getE (args[2]? >>= parseTA?) "bad A"
-  let tag := s!"cli={repr}/{op}"
+  let tag := s!"cli={repr}/{op0}"
+  -- `unions` / `unionp` / `isects` / `isectp`: the two-operand commands with `-s` / `-p` (both operands are pruned first: same language)
+  let op := if ["unions", "unionp"].contains op0 then "union" else if ["isects", "isectp"].contains op0 then "isect" else op0
   match kv res "out" with
   | some "N" => return ([], tag ++ " notimpl=1")
   | some "T" => return ([], tag ++ " timeout=1")
